@@ -67,10 +67,10 @@ func uniqStates(s []dstate) []dstate {
 }
 
 type armWalker struct {
-	w   *World
-	p   *packages.Package
-	vi  *VMInfo
-	a   *ArmAnalysis
+	w  *World
+	p  *packages.Package
+	vi *VMInfo
+	a  *ArmAnalysis
 	// base-relative mode (updateConstIndexes): index variable plays the role of ip
 	baseVar types.Object
 	insVar  types.Object
@@ -1139,23 +1139,26 @@ func ruleCODEC5(c *Ctx) {
 			for _, s := range sw.Body.List {
 				cc := s.(*ast.CaseClause)
 				for _, e := range cc.List {
-					b, ok := ast.Unparen(e).(*ast.BinaryExpr)
-					if !ok || b.Op != token.EQL {
-						continue
-					}
-					var cobj *types.Const
-					if cobj = ConstObj(p, b.Y); cobj == nil {
-						cobj = ConstObj(p, b.X)
-					}
-					if cobj == nil {
-						continue
-					}
-					if _, isOp := oi.Val[cobj.Name()]; !isOp {
-						continue
-					}
-					c.check(noFall[cobj.Name()], "optimizer/dead-trigger/"+cobj.Name(), cc,
-						"dead-code trigger never falls through in the VM",
-						fmt.Sprintf("optimizer starts dead code after %s, but the VM arm of %s has a fall-through path; never-fall-through opcodes: %s", cobj.Name(), cobj.Name(), setStr(noFall)))
+					ast.Inspect(e, func(en ast.Node) bool {
+						b, ok := en.(*ast.BinaryExpr)
+						if !ok || b.Op != token.EQL {
+							return true
+						}
+						var cobj *types.Const
+						if cobj = ConstObj(p, b.Y); cobj == nil {
+							cobj = ConstObj(p, b.X)
+						}
+						if cobj == nil {
+							return true
+						}
+						if _, isOp := oi.Val[cobj.Name()]; !isOp {
+							return true
+						}
+						c.check(noFall[cobj.Name()], "optimizer/dead-trigger/"+cobj.Name(), cc,
+							"dead-code trigger never falls through in the VM",
+							fmt.Sprintf("optimizer starts dead code after %s, but the VM arm of %s has a fall-through path; never-fall-through opcodes: %s", cobj.Name(), cobj.Name(), setStr(noFall)))
+						return true
+					})
 				}
 			}
 			return true
